@@ -173,6 +173,7 @@ Lemma frame_error {A} e : frame (@error A e). Proof. intros s. exact I. Qed.
 Lemma frame_push_sub i : frame (push_sub i). Proof. intros s. cbn. same_tac. Qed.
 Lemma frame_pop_sub : frame pop_sub. Proof. intros s. cbn. same_tac. Qed.
 Lemma frame_set_index_m f i : frame (set_index_m f i). Proof. intros s. cbn. same_tac. Qed.
+Lemma frame_set_fh_m h : frame (set_fh_m h). Proof. intros s. cbn. same_tac. Qed.
 Lemma frame_scope_begin : frame scope_begin. Proof. intros s. cbn. same_tac. Qed.
 Lemma frame_compile_begin : frame compile_begin. Proof. intros s. cbn. same_tac. Qed.
 Lemma frame_compile_end : frame compile_end. Proof. intros s. cbn. same_tac. Qed.
@@ -220,13 +221,13 @@ Proof.
   { destruct (match sm_find n (cs_jump s) with Some m => Some m | None => _ end); [apply frame_ret|].
     destruct (sm_find n (cs_imports s)); [|apply frame_ret].
     destruct (super_depth _) as [[cnt sx]|]; [|apply frame_diverge].
-    destruct (take_ns _ _ _); [apply frame_ret | apply frame_panic]. }
+    destruct (take_ns _ _ _); [apply frame_ret | apply frame_error]. }
   intros st3. apply frame_bind.
   { destruct st3; [apply frame_ret|].
     destruct (split_once_c c_dot n) as [[pre suf]|]; [|apply frame_ret].
     destruct (sm_find pre (cs_imports s)); [|apply frame_ret].
     destruct (super_depth _) as [[cnt sx]|]; [|apply frame_diverge].
-    destruct (take_ns _ _ _); [apply frame_ret | apply frame_panic]. }
+    destruct (take_ns _ _ _); [apply frame_ret | apply frame_error]. }
   intros st4. destruct st4; [apply frame_ret | apply frame_error].
 Qed.
 
@@ -422,10 +423,21 @@ Proof.
   destruct Hin as [[-> ->]|Hin]; [rewrite H1; apply is_bound_end | eauto].
 Qed.
 
+Lemma spec_label_entry bs p h : spec bs p p (label_entry_here h).
+Proof.
+  intros s HI _. unfold label_entry_here.
+  destruct (two32 <=? cs_pc s); [exact I|].
+  destruct (h =? 0); [split; [exact HI | apply mono_refl]|].
+  destruct (nm_find h (cs_labels s)); [split; [exact HI | apply mono_refl]|].
+  split; [|intros b Hb; exact Hb]. destruct HI as [H1 H2 H3 H4]. constructor; auto.
+  cbn [cs_labels set_labels cs_code]. intros x y Hin. apply in_nm_insert in Hin.
+  destruct Hin as [[-> ->]|Hin]; [rewrite H1; apply is_bound_end | eauto].
+Qed.
+
 Lemma spec_card_label bs p : spec bs p p card_label.
 Proof.
   unfold card_label. eapply spec_bind; [apply spec_frame, frame_index_handle|].
-  intros h. apply spec_label_insert.
+  intros h. apply spec_label_entry.
 Qed.
 
 Lemma spec_push_string bs p mk st :
@@ -460,7 +472,7 @@ Lemma spec_push_raws bs p is :
   Forall (fun i => jump_target i = None) is -> spec bs p p (push_raws is).
 Proof.
   induction 1 as [|i r Hi _ IH]; cbn [push_raws]; [apply spec_ret|].
-  eapply spec_bind; [apply spec_push_raw, Hi | intros _; exact IH].
+  eapply spec_bind; [apply spec_push_instr, Hi | intros _; exact IH].
 Qed.
 
 Lemma spec_scope_end bs p : spec bs p p scope_end.
@@ -732,6 +744,7 @@ Lemma spec_compile_main bs p f : spec bs p p (compile_main f).
 Proof.
   unfold compile_main.
   eapply spec_bind; [apply spec_frame, frame_set_index_m | intros _].
+  eapply spec_bind; [apply spec_frame, frame_set_fh_m | intros _].
   eapply spec_bind; [apply spec_frame, frame_scope_begin | intros _].
   eapply spec_bind; [apply spec_process_function | intros _].
   eapply spec_bind; [apply spec_frame, frame_set_index_m | intros _].
@@ -743,6 +756,7 @@ Lemma spec_compile_other bs p f : spec bs p p (compile_other f).
 Proof.
   unfold compile_other.
   eapply spec_bind; [apply spec_frame, frame_set_index_m | intros _].
+  eapply spec_bind; [apply spec_frame, frame_set_fh_m | intros _].
   eapply spec_bind; [apply spec_label_insert | intros _].
   eapply spec_bind; [apply spec_frame, frame_scope_begin | intros _].
   eapply spec_bind; [apply spec_process_function | intros _].
@@ -759,7 +773,7 @@ Qed.
 
 Lemma frame_add_function f : frame (add_function f).
 Proof.
-  intros s. unfold add_function, bind, get. destruct (sm_find (fi_name f) (cs_jump s)); cbn; [exact I|].
+  intros s. unfold add_function, bind, get. destruct (sm_find (fi_full_name f) (cs_jump s)); cbn; [exact I|].
   same_tac.
 Qed.
 Lemma frame_stage_1 fs : frame (stage_1 fs).
